@@ -407,7 +407,12 @@ func Steps() int { return s.steps }
 // Self returns the id of the running thread.
 //
 //go:norace
-func Self() int { return s.cur }
+func Self() int {
+	if !active {
+		return -1
+	}
+	return s.cur
+}
 
 // Yield is an explicit scheduling point for driver code inside user callbacks.
 func Yield() {
